@@ -143,6 +143,11 @@ pub fn vx_cursor_position(c: &io::Cursor<&Vec<u8>>) -> (r: u64)
 #[verifier::external_body]
 pub fn vx_rd_decode(b: &[u8; 8]) -> (r: Result<RouteDistinguisher, io::Error>)
 { RouteDistinguisher::decode(b) }
+/// `MplsLabelStack::new(vec![MplsLabel::new(0)])`: the one-label placeholder stack of a withdrawn labeled route
+#[verifier::external_body]
+pub fn vx_single_zero_label() -> (r: MplsLabelStack)
+    ensures stack_depth(r) == 1,
+{ MplsLabelStack::new(vec![crate::mpls::MplsLabel::new(0)]) }
 /// `vec![0u8; n]`
 #[verifier::external_body]
 pub fn vx_zeroed(n: usize) -> (r: Vec<u8>)
